@@ -249,7 +249,9 @@ fn unique_with<F: OracleRepr, Fl: Flags>(tw: &TowerOf<F>, name: &str, fname: &'s
         },
         2 => {
             // exactly p, p+1, p+2 (as far as they fit)
-            let dlt = BigUint::from(t.below(3)) % &room;
+            // ... or p plus an edge word placed in any limb: same top limbs as p, lower limbs far from p's
+            let dlt = if t.bool() { BigUint::from(t.below(3)) } else { BigUint::from(t.edge_u64()) << (64 * t.idx(tw.prime.n)) };
+            let dlt = dlt % &room;
             seg.put(&mut input, &(p + dlt));
             must_err = true;
             label = "exactly-p";
